@@ -49,6 +49,7 @@ impl PersistWal {
     /// Ensure writer is open
     fn ensure_writer(&mut self) -> StorageResult<&mut BufWriter<File>> {
         if self.writer.is_none() {
+            let existed = self.current_file.exists();
             let file = OpenOptions::new()
                 .create(true)
                 .append(true)
@@ -64,6 +65,11 @@ impl PersistWal {
                     );
                     e
                 })?;
+            if !existed {
+                // A newly created WAL file is only reachable after a crash once its directory
+                // entry is durable; without this an fsynced (acknowledged) append could vanish
+                super::sync_directory(&self.wal_dir);
+            }
             self.writer = Some(BufWriter::new(file));
         }
         Ok(self
@@ -245,6 +251,7 @@ impl PersistWal {
         // all data to batch files, so the WAL entries are redundant.
         if self.current_file.exists() {
             fs::remove_file(&self.current_file)?;
+            super::sync_directory(&self.wal_dir);
         }
 
         self.entries_written = 0;
@@ -284,6 +291,7 @@ impl PersistWal {
             // No surviving entries: just remove the WAL file
             if self.current_file.exists() {
                 fs::remove_file(&self.current_file)?;
+                super::sync_directory(&self.wal_dir);
             }
             self.entries_written = 0;
             return Ok(());
@@ -311,6 +319,10 @@ impl PersistWal {
         // Atomic rename: replaces old WAL with the new one.
         // On POSIX, rename is atomic - either the old or new file is visible.
         fs::rename(&new_file, &self.current_file)?;
+
+        // Later appends go to the renamed file: if the rename were lost in a crash they would
+        // be stranded in `current.wal.new` (deleted at startup), so make it durable now
+        super::sync_directory(&self.wal_dir);
 
         self.entries_written = surviving.len();
         Ok(())
